@@ -14,7 +14,7 @@ from docx.text.run import Run
 from adeu.models import DocumentEdit, EditOperationType, ReviewAction
 from adeu.redline.comments import CommentsManager
 from adeu.redline.mapper import DocumentMapper
-from adeu.utils.docx import create_attribute, create_element, normalize_docx
+from adeu.utils.docx import create_attribute, create_element, iter_document_parts, normalize_docx
 
 logger = structlog.get_logger(__name__)
 
@@ -154,7 +154,7 @@ class RedlineEngine:
         """
         max_id = 0
         for tag in ["w:ins", "w:del"]:
-            elements = self.doc.element.xpath(f"//{tag}")
+            elements = self._xpath_all_parts(f"//{tag}")
             for el in elements:
                 try:
                     val = int(el.get(qn("w:id")))
@@ -163,6 +163,14 @@ class RedlineEngine:
                 except (ValueError, TypeError):
                     pass
         return max_id
+
+    def _xpath_all_parts(self, expr: str) -> list:
+        """Evaluates an XPath in every text story (headers, body, footers), in document order."""
+        results = []
+        for part in iter_document_parts(self.doc):
+            root = part.element if hasattr(part, "element") and part is self.doc else part._element
+            results.extend(root.xpath(expr))
+        return results
 
     def _get_next_id(self):
         self.current_id += 1
@@ -705,7 +713,7 @@ class RedlineEngine:
             if context_span and context_span.ins_id:
                 logger.info(f"Detected edit inside Insertion ID={context_span.ins_id}. Converting to Replace.")
                 ins_id = context_span.ins_id
-                ins_nodes = self.doc.element.xpath(f"//w:ins[@w:id='{ins_id}']")
+                ins_nodes = self._xpath_all_parts(f"//w:ins[@w:id='{ins_id}']")
                 if not ins_nodes:
                     return False
 
@@ -882,7 +890,7 @@ class RedlineEngine:
         return applied, skipped
 
     def _accept_change(self, target_id: str) -> bool:
-        ins_nodes = self.doc.element.xpath(f"//w:ins[@w:id='{target_id}']")
+        ins_nodes = self._xpath_all_parts(f"//w:ins[@w:id='{target_id}']")
         for ins in ins_nodes:
             parent = ins.getparent()
             index = parent.index(ins)
@@ -891,18 +899,18 @@ class RedlineEngine:
                 index += 1
             parent.remove(ins)
 
-        del_nodes = self.doc.element.xpath(f"//w:del[@w:id='{target_id}']")
+        del_nodes = self._xpath_all_parts(f"//w:del[@w:id='{target_id}']")
         for d in del_nodes:
             d.getparent().remove(d)
 
         return bool(ins_nodes or del_nodes)
 
     def _reject_change(self, target_id: str) -> bool:
-        ins_nodes = self.doc.element.xpath(f"//w:ins[@w:id='{target_id}']")
+        ins_nodes = self._xpath_all_parts(f"//w:ins[@w:id='{target_id}']")
         for ins in ins_nodes:
             ins.getparent().remove(ins)
 
-        del_nodes = self.doc.element.xpath(f"//w:del[@w:id='{target_id}']")
+        del_nodes = self._xpath_all_parts(f"//w:del[@w:id='{target_id}']")
         for d in del_nodes:
             parent = d.getparent()
             index = parent.index(d)
@@ -930,7 +938,7 @@ class RedlineEngine:
         return True
 
     def _anchor_reply_comment(self, parent_id: str, new_id: str):
-        starts = self.doc.element.xpath(f"//w:commentRangeStart[@w:id='{parent_id}']")
+        starts = self._xpath_all_parts(f"//w:commentRangeStart[@w:id='{parent_id}']")
         if not starts:
             logger.warning("Parent comment start not found during reply", parent_id=parent_id)
             return
@@ -940,7 +948,7 @@ class RedlineEngine:
         create_attribute(new_start, "w:id", new_id)
         parent_start.addnext(new_start)
 
-        ends = self.doc.element.xpath(f"//w:commentRangeEnd[@w:id='{parent_id}']")
+        ends = self._xpath_all_parts(f"//w:commentRangeEnd[@w:id='{parent_id}']")
         if not ends:
             return
 
@@ -948,7 +956,7 @@ class RedlineEngine:
         new_end = create_element("w:commentRangeEnd")
         create_attribute(new_end, "w:id", new_id)
 
-        parent_refs = self.doc.element.xpath(f"//w:commentReference[@w:id='{parent_id}']")
+        parent_refs = self._xpath_all_parts(f"//w:commentReference[@w:id='{parent_id}']")
         insertion_point = parent_end
 
         if parent_refs:
@@ -972,7 +980,7 @@ class RedlineEngine:
         new_end.addnext(ref_run)
 
     def accept_all_revisions(self):
-        for ins in self.doc.element.xpath("//w:ins"):
+        for ins in self._xpath_all_parts("//w:ins"):
             parent = ins.getparent()
             index = parent.index(ins)
             for child in list(ins):
@@ -980,9 +988,9 @@ class RedlineEngine:
                 index += 1
             parent.remove(ins)
 
-        for d in self.doc.element.xpath("//w:del"):
+        for d in self._xpath_all_parts("//w:del"):
             d.getparent().remove(d)
 
         for tag in ["w:commentRangeStart", "w:commentRangeEnd", "w:commentReference"]:
-            for el in self.doc.element.xpath(f"//{(tag)}"):
+            for el in self._xpath_all_parts(f"//{(tag)}"):
                 el.getparent().remove(el)
